@@ -44,6 +44,7 @@ pub fn decode_c04(u: &mut Unstructured) -> Result<CbCase> {
         classifier_first: u.arbitrary::<bool>()?,
         listeners: false,
         via_fallback: false,
+        thr100: None,
     };
     let mut ops = vec![];
     while !u.is_empty() && ops.len() < 400 {
